@@ -18,10 +18,11 @@ RULE = (
     "early / late / duplicate StartStage messages injected for random stages at random steps. For every durable "
     "NOT_STARTED->RUNNING row the join predicate is evaluated on the durable upstream statuses at that row's sequence "
     "number. Non-trivial = a stage start with >=1 upstream; distinct = (join type, sorted upstream status vector, "
-    "was an injected StartStage pending)."
+    "was an injected StartStage pending). The same monitor runs over whole workflows executed by 2-4 worker threads "
+    "interleaved at SQL-statement granularity (random / PCT) while a further thread pushes stray StartStage messages."
 )
 ASSUMPTIONS = ["SQLite backend", "jump targets are exempt exactly when a JumpToStage naming them re-armed them in the same commit group"]
-MIN_OBS = {"starts_checked": {"quick": 2000, "thorough": 20000}, "injected_start_messages": {"quick": 500, "thorough": 5000}}
+MIN_OBS = {"starts_checked": {"quick": 2000, "thorough": 20000}, "injected_start_messages": {"quick": 500, "thorough": 5000}, "interleaved_runs": {"quick": 60, "thorough": 800}}
 TIMEOUT = {"quick": 600, "thorough": 3000}
 
 
@@ -40,7 +41,10 @@ def _spec_for(i: int, seed: int) -> dict:
 
 def gen_cases(tier: str, seed: int) -> list[dict]:
     n, k = (60, 15) if tier == "quick" else (400, 60)
-    return [{"spec_i": i, "seed": seed, "nsched": k} for i in range(n)]
+    cases = [{"spec_i": i, "seed": seed, "nsched": k} for i in range(n)]
+    for i in range(80 if tier == "quick" else 1000):
+        cases.append({"kind": "race", "spec_i": i, "seed": seed})
+    return cases
 
 
 def predicate(stage: dict, ups: dict[str, str | None]) -> tuple[bool, str]:
@@ -120,7 +124,45 @@ def start_oracle(spec: dict, run, prop: str = "C03") -> tuple[list[dict], Counte
     return out, obs, keys
 
 
+def _race(case: dict) -> dict:
+    """The same predicate monitor over runs by 2-4 worker threads interleaved at SQL-statement
+    granularity, while a further thread pushes stray StartStage messages for random stages."""
+    from stabilize.queue.messages import StartStage
+
+    from .. import interleave as il
+
+    spec = _spec_for(case["spec_i"], case["seed"])
+    rng = random.Random(case["seed"] * 7331 + case["spec_i"])
+    refs = [s["ref"] for s in spec["stages"]]
+    pushed = []
+
+    def injector(w, sched, stop):
+        for _ in range(rng.randint(1, 5)):
+            il.idle_points(sched, rng.randrange(0, 120), stop)
+            st = w.snapshot_state()["stages"].get(rng.choice(refs))
+            if st:
+                w.queue.push(StartStage(execution_type="PIPELINE", execution_id=w.wf_id, stage_id=st["id"]))
+                pushed.append(w.max_seq())
+
+    run, info = il.race_run(spec, rng, injector=injector)
+    obs: Counter = Counter({"evaluations": 1})
+    if run is None:
+        obs["scheduler_failed"] += 1
+        return {"violations": [], "obs": dict(obs), "keys": [], "inconclusive": info.get("failed")}
+    run.injected = [{"do": "early_start", "seq": q} for q in pushed]
+    obs["interleaved_runs"] += 1
+    obs["injected_start_messages"] += len(pushed)
+    obs["interleaved_switches"] += info["switches"]
+    v, o, k = start_oracle(spec, run)
+    obs.update(o)
+    for x in v:
+        x.update(interleaved=True, trace_hash=info["trace_hash"])
+    return {"violations": v[:10], "obs": dict(obs), "keys": sorted("race:" + x for x in k)}
+
+
 def run_case(case: dict) -> dict:
+    if case.get("kind") == "race":
+        return _race(case)
     spec = _spec_for(case["spec_i"], case["seed"])
     rng = random.Random(case["seed"] * 31 + case["spec_i"])
     obs: Counter = Counter()
